@@ -89,8 +89,14 @@ class HTMLTokenizer(object):
             charStack.append(c)
             c = self.stream.char()
 
-        # Convert the set of characters consumed to an int.
-        charAsInt = int("".join(charStack), radix)
+        # Convert the set of characters consumed to an int. Leading zeros are
+        # insignificant; Python >= 3.11 refuses to convert decimal strings of
+        # more than sys.get_int_max_str_digits() digits, and a number that
+        # long is out of range anyway.
+        try:
+            charAsInt = int("".join(charStack).lstrip("0") or "0", radix)
+        except ValueError:
+            charAsInt = 0x110000
 
         # Certain characters get replaced with others
         if charAsInt in replacementCharacters:
